@@ -15,6 +15,7 @@ return the same result. -/
 structure RespectsGhost (rm : Remotes) : Prop where
   recon : ∀ (o : OSet) (ph : PhaseSpec) {w w' : World}, GhostEq w w' → RelW (rm.recon o ph w) (rm.recon o ph w')
   tear : ∀ (o : OSet) (ph : PhaseSpec) {w w' : World}, GhostEq w w' → RelW (rm.tear o ph w) (rm.tear o ph w')
+  sync : ∀ (o : OSet) (ph : PhaseSpec) {w w' : World}, GhostEq w w' → GhostEq (rm.sync o ph w) (rm.sync o ph w')
 
 theorem setPhase_ghost {w w' : World} (h : GhostEq w w') (n : String) (p : Option OPhase) :
     GhostEq (setPhase w n p) (setPhase w' n p) := by
@@ -63,15 +64,24 @@ theorem remoteTeardown_ghost (o : OSet) (ph : PhaseSpec) {w w' : World} (h : Gho
   ghost_leaves
 
 /-- **the model of delegated phases respects ghost equality.** -/
+theorem remoteSyncPaused_ghost (o : OSet) (ph : PhaseSpec) {w w' : World} (h : GhostEq w w') :
+    GhostEq (remoteSyncPaused o ph w) (remoteSyncPaused o ph w') := by
+  simp only [remoteSyncPaused, h.phases]
+  split
+  · exact h
+  · exact (propagatePause_ghost o _ _ h).1
+
 theorem remotes_respects : RespectsGhost remotes where
   recon := fun o ph _ _ h => remoteReconcile_ghost o ph h
   tear := fun o ph _ _ h => remoteTeardown_ghost o ph h
+  sync := fun o ph _ _ h => remoteSyncPaused_ghost o ph h
 
 /-- a `Remotes` record that is never reached / does nothing respects ghost equality, too. -/
 theorem const_respects (r1 : Except PassErr (List CRef × Bool)) (r2 : TRes) :
-    RespectsGhost ⟨fun _ _ w => (w, r1), fun _ _ w => (w, r2)⟩ where
+    RespectsGhost ⟨fun _ _ w => (w, r1), fun _ _ w => (w, r2), fun _ _ w => w⟩ where
   recon := fun _ _ _ _ h => RelW.mk' h _
   tear := fun _ _ _ _ h => RelW.mk' h _
+  sync := fun _ _ _ _ h => h
 
 /-! ### write primitives of the ObjectSetPhase controller -/
 
